@@ -271,6 +271,8 @@ func C02(p *load.Prog, r *oblig.Run) {
 			"trimNodeValue(previousNode) after the loop", "the value of the last node of the file is never trimmed")
 	}
 	c02ReadLine(p, r)
+	c02AttachOps(p, r)
+	c02TrimOnlyEnds(p, r)
 }
 
 // loopBlock: b is inside the loop headed by header (header dominates b and b reaches header).
